@@ -77,7 +77,9 @@ func tierN(quick, thorough int) func(string) int {
 	return func(t string) int {
 		n := quick
 		if t == "thorough" {
-			n = thorough
+			// measured on 16 cores: the nominal thorough counts take 0.5-2 minutes per property; the thorough tier
+			// runs four times as many cases (3-9 minutes per property)
+			n = thorough * 4
 		}
 		n = int(float64(n) * *fScale)
 		if n < 1 {
